@@ -256,9 +256,9 @@ func (c03) Gen(r *kern.Rng, tier string, idx int) *Trace {
 	}
 	tr := &Trace{Property: "C03", Family: "R-malformed", R: sc}
 	// truncation sweep: every byte of a small valid stream
-	every := 16
+	every := 17 // primes: the sweeps spread over all worker shards
 	if tier == "thorough" {
-		every = 64 // every byte of each swept stream; fewer sweeps, more other runs
+		every = 67 // every byte of each swept stream; fewer sweeps, more other runs
 	}
 	if idx%every == 0 {
 		sc.In = scen.InputSpec{Parts: []scen.StreamSpec{genStream(r, "flate", 3000, 0)}}
@@ -1030,9 +1030,9 @@ func (c18) Gen(r *kern.Rng, tier string, idx int) *Trace {
 		sc.Prior = []scen.Prior{genPrior(r, "flate")}
 	}
 	tr := &Trace{Property: "C18", Family: "R-* cross-level", R: sc}
-	every := 40
+	every := 41
 	if tier == "thorough" {
-		every = 200
+		every = 199
 	}
 	if idx%every == 7 {
 		// every truncation point of a small valid stream, at every level
